@@ -428,7 +428,9 @@ _CONDITIONAL = {("Cell", "currency"): (lambda kw: kw.get("cell_type") == "curren
                 ("Cell", "value"): (lambda kw: kw.get("cell_type") is None, {}),    # type deduced from the value
                 ("Table", "protection_key"): (lambda kw: kw.get("protected") is True, {"protected": True})}
 # Parameters whose documented domain is an enumeration / a coordinate syntax rather than any str.
-_DOMAIN = {("Reference", "ref_format"): ["", "page", "text", "chapter", "number"],
+# text:reference-format values of ODF 1.2 (19.854), written out here independently of the library's own list
+_DOMAIN = {("Reference", "ref_format"): ["", "page", "chapter", "direction", "text", "category-and-value", "caption", "value",
+                                         "number", "number-all-superior", "number-no-superior"],
            ("NamedRange", "crange"): ["A1", "B2:C3"],
            ("NamedRange", "usage"): ["print-range", "filter", "repeat-row"],
            ("Cell", "cell_type"): ["boolean", "currency", "date", "float", "percentage", "string", "time"]}
@@ -582,8 +584,8 @@ def _own_property(k, name):
     XML accessors of Element (text, tail, parent, tag, ...) are homonyms, not the argument's property."""
     from odfdo.element import Element
     for c in k.__mro__:
-        if c is Element:
-            return False
+        if c is Element or c is object:
+            continue            # mixins (PosMix, SizeMix, ...) come after Element in the MRO of several classes
         if name in c.__dict__:
             return True
     return False
